@@ -10,7 +10,11 @@ fit(): parameters supplied at construction must come back bit-identical (and the
 caller's arrays untouched), everything finite and non-negative, w symmetric /
 diagonal (a third of the validity cases train both parameters with more
 communities than the data support, where a community dies out by underflow); the
-maximum size is detected from the data when not supplied; with u supplied the
+maximum size is detected from the data when not supplied, and the closed forms are
+compared with the definitions once more on the parameters the model carries after
+fit() (model.u / model.w read back; before fit() as well when both were supplied);
+a second fit() on the same model leaves the supplied parameters bit-identical too;
+with u supplied the
 exact Poisson log-likelihood (w_prior = 0) or the MAP objective (w_prior > 0) of
 the data must not decrease over fresh fits with n_iter = 1..8 and the same seed.
 
@@ -42,9 +46,12 @@ ASSUMPTIONS = [
     "2..D (plain Python floats with math.fsum, exact integer binomials); kappa_d = "
     "binom(N-2,d-2)*d*(d-1)/2 as in the reference paper ('binom+avg', the only implemented form)",
     "domain: 3 <= N <= 7, 1 <= K <= 3, 2 <= D <= N, entries of u and w are 0 or in [0.25, 2] "
-    "(bounded condition number, so that rtol 1e-9 is meaningful for the cancelling shortcuts)",
+    "(bounded condition number, so that rtol 1e-9 is meaningful for the cancelling shortcuts); "
+    "a quarter of the cases hands whole-number u and/or w over as int64 arrays",
     "fit: 2 <= N <= 7 nodes with any comparable labels (isolated nodes allowed), hyperedge "
-    "sizes 2..D <= N, at least one hyperedge, positive integer weights, row i of a "
+    "sizes 2..D <= N, at least one hyperedge, positive weights (integers 1..5, or drawn from "
+    "{0.5, 1.5, 2.25, 1, 3}: the exact log-likelihood a*log(m) - m - lgamma(a+1) is evaluated for "
+    "real a), supplied parameters as float64 or (whole numbers) int64 arrays, row i of a "
     "supplied u belongs to the node that Hypergraph.get_mapping() sends to i; a supplied u is "
     "strictly positive and a supplied w has at least one positive entry (zero rows allowed), so "
     "that every observed hyperedge has a positive Poisson rate -- data of probability zero "
@@ -55,6 +62,10 @@ ASSUMPTIONS = [
     "the likelihood is summed over all hyperedges up to the model's maximum size: the supplied "
     "max_hye_size, or the maximum size found in the data when None is supplied (documented: "
     "'detected automatically')",
+    "closed forms after fit(): the oracle is evaluated on model.u / model.w as read back from the "
+    "fitted model (whatever spread their entries have: every tolerance is relative to M); "
+    "parameters with 0 < M < 1e-250 (underflow range, no relative error bound) are excluded and "
+    "counted",
 ]
 
 RTOL = 1e-9
@@ -126,9 +137,15 @@ entry = st.one_of(st.just(0.0), st.floats(0.25, 2.0), st.floats(0.25, 2.0),
 pos_entry = st.one_of(st.floats(0.25, 2.0), st.sampled_from([0.25, 0.5, 1.0, 2.0]))
 
 
+int_entry = st.sampled_from([0.0, 1.0, 1.0, 2.0, 3.0])
+int_pos_entry = st.sampled_from([1.0, 1.0, 2.0, 3.0])
+
+
 @st.composite
-def u_matrices(draw, N, K, positive=False):
+def u_matrices(draw, N, K, positive=False, integral=False):
     el = pos_entry if positive else entry
+    if integral:
+        el = int_pos_entry if positive else int_entry
     u = [[draw(el) for _ in range(K)] for _ in range(N)]
     if not any(x > 0 for r in u for x in r):
         u[0][0] = 1.0
@@ -136,8 +153,10 @@ def u_matrices(draw, N, K, positive=False):
 
 
 @st.composite
-def w_matrices(draw, K, diagonal, positive=False):
+def w_matrices(draw, K, diagonal, positive=False, integral=False):
     el = pos_entry if positive else entry
+    if integral:
+        el = int_pos_entry if positive else int_entry
     w = [[0.0] * K for _ in range(K)]
     for k in range(K):
         w[k][k] = draw(el)
@@ -153,27 +172,43 @@ def param_cases(draw):
     K = draw(st.sampled_from([1, 2, 2, 3, 3]))
     D = N - draw(st.integers(0, N - 2)) if draw(st.booleans()) else draw(st.integers(2, N))
     diagonal = draw(st.booleans())
-    u = draw(u_matrices(N, K))
-    w = draw(w_matrices(K, diagonal))
+    # a quarter of the cases: whole-number parameters handed over as int64 arrays (u, w or both)
+    int_arrays = draw(st.sampled_from([None, None, None, None, None, None, "u", "w", "both"]))
+    u = draw(u_matrices(N, K, integral=int_arrays in ("u", "both")))
+    w = draw(w_matrices(K, diagonal, integral=int_arrays in ("w", "both")))
     # magnitudes: the identities are homogeneous, they must hold for tiny parameters as well
     # (all tolerances below are relative to M = (sum u)^T w (sum u))
     su = draw(st.sampled_from([1.0, 1.0, 1.0, 1e-3, 1e-6, 1e-8]))
     sw = draw(st.sampled_from([1.0, 1.0, 1.0, 1e-12, 1e3]))
+    if int_arrays in ("u", "both"):
+        su = 1.0
+    if int_arrays in ("w", "both"):
+        sw = 1.0
     u = [[x * su for x in r] for r in u]
     w = [[x * sw for x in r] for r in w]
     dims = draw(st.lists(st.integers(2, D), min_size=1, max_size=D - 1, unique=True))
     return {"N": N, "K": K, "D": D, "diagonal": diagonal, "u": u, "w": w, "dims": dims,
-            "perm": draw(S.seeds)}
+            "perm": draw(S.seeds), "int_arrays": int_arrays}
 
 
 def _params_strategy(tier):
     return param_cases()
 
 
+def _array(rows, as_int):
+    """float64 array of the case's numbers; int64 when the case asks for an integer-dtype
+    array (only drawn together with whole-number entries, verified here)."""
+    if as_int:
+        if not all(float(x).is_integer() for r in rows for x in r):
+            raise AssertionError("integer-dtype array requested for non-integral entries")
+        return np.array(rows, dtype=np.int64)
+    return np.array(rows, dtype=float)
+
+
 def make_model(case):
     from hypergraphx.communities.hy_mmsbm.model import HyMMSBM
-    u = np.array(case["u"], dtype=float)
-    w = np.array(case["w"], dtype=float)
+    u = _array(case["u"], case.get("int_arrays") in ("u", "both"))
+    w = _array(case["w"], case.get("int_arrays") in ("w", "both"))
     return HyMMSBM(u=u, w=w, max_hye_size=case["D"]), u, w
 
 
@@ -184,6 +219,8 @@ def _classify(case, ctx):
         ctx.label("u has zero entry")
     if all(x == 0 for r in case["w"] for x in r):
         ctx.label("w all zero")
+    if case.get("int_arrays"):
+        ctx.label("int64 parameter array: " + case["int_arrays"])
 
 
 # --------------------------------------------------------------------------
@@ -400,16 +437,24 @@ def fit_cases(draw, ascent=False, supplies=("u", "w", "u", "w", "both", "none"),
     edges = draw(sized_edges(N, D))
     weighted = draw(st.booleans())
     weights = [draw(st.integers(1, 5)) for _ in edges] if weighted else None
+    if weighted and draw(st.integers(0, 2)) == 0:
+        # positive non-integer weights (a weighted hypergraph carries any positive number; the
+        # Poisson log-likelihood a*log(m) - m - lgamma(a+1) is defined for real a and the
+        # multiplicative updates are the same majorisation steps)
+        weights = [draw(st.sampled_from([0.5, 1.5, 2.25, 0.5, 1, 3])) for _ in edges]
     assortative = draw(st.booleans())
     if ascent:
         supply = "u"
     else:
         supply = draw(st.sampled_from(list(supplies)))
-    u = draw(u_matrices(N, K, positive=True)) if supply in ("u", "both") else None
+    # whole-number parameters handed over as int64 arrays (a fifth of the cases)
+    int_arrays = draw(st.integers(0, 4)) == 0
+    u = (draw(u_matrices(N, K, positive=True, integral=int_arrays))
+         if supply in ("u", "both") else None)
     w = None
     if supply in ("w", "both"):
         # zero entries (even a whole zero row: a community nobody can use) are allowed
-        w = draw(w_matrices(K, assortative, positive=draw(st.booleans())))
+        w = draw(w_matrices(K, assortative, positive=draw(st.booleans()), integral=int_arrays))
         if not any(x > 0 for r in w for x in r):
             w[0][0] = 1.0
     # (u_prior, w_prior); a prior on u with a free w is the scale-degenerate combination in
@@ -471,12 +516,14 @@ def fit_cases(draw, ascent=False, supplies=("u", "w", "u", "w", "both", "none"),
         "pass_K": draw(st.booleans()),
         "seed": draw(S.seeds),
         "sparse_u": sparse_u,
+        "int_arrays": int_arrays and supply != "none",
     }
     if dying:
         # both parameters trained, more communities than the data support, a prior on u
         # only: the surplus communities decay doubly exponentially
         case.update(K=draw(st.sampled_from([2, 3])), supply="none", u=None, w=None,
                     assortative=draw(st.sampled_from([True, True, False])), u_prior=0.5,
+                    int_arrays=False,
                     w_prior=draw(st.sampled_from([0.0, 0.0, 1.0])))
     if not ascent:
         case["n_iter"] = draw(st.sampled_from([8, 12, 20] if dying else [1, 2, 3, 5, 8, 12, 20]))
@@ -564,10 +611,10 @@ def new_model(case, N, seed=None):
           "seed": case["seed"] if seed is None else seed}
     u = w = None
     if case["u"] is not None:
-        u = np.array(case["u"], dtype=float)
+        u = _array(case["u"], case.get("int_arrays"))
         kw["u"] = u
     if case["w"] is not None:
-        w = np.array(case["w"], dtype=float)
+        w = _array(case["w"], case.get("int_arrays"))
         kw["w"] = w
     if case["pass_K"] or (u is None and w is None):
         kw["K"] = case["K"]
@@ -580,6 +627,10 @@ def _classify_fit(case, ctx, N):
               "weighted" if case["weights"] is not None else "unweighted",
               "max_hye_size:" + case["max_hye"], "w_prior=" + _prior_label(case["w_prior"]),
               "u_prior=" + _prior_label(case["u_prior"]), "data max size %d" % data_max_size(case))
+    if case.get("int_arrays"):
+        ctx.label("supplied parameters as int64 arrays")
+    if case["weights"] is not None and any(not float(a).is_integer() for a in case["weights"]):
+        ctx.label("non-integer weights")
     if case.get("sparse_u"):
         ctx.label("sparse memberships (zeros in the supplied u)")
         cols = list(zip(*case["u"]))
@@ -616,6 +667,24 @@ def check_fit_fixed_params(case, ctx):
                 "after %r" % (case["n_iter"], name, copy_.tolist(), mine.tolist()),
                 key="caller_array")
     require(model.trained is True, "model.trained is not True after fit", key="trained")
+    # fit() again on the same model (every second case with other settings): what was supplied
+    # at construction still comes back bit-identical, the caller's arrays stay untouched
+    again = {"n_iter": case["n_iter"], "tolerance": case["tolerance"],
+             "check_convergence_every": case["check_every"]}
+    if case["seed"] % 2:
+        again = {"n_iter": 1 + case["seed"] % 4}
+    model.fit(h, **again)
+    for name, mine, copy_, attr in (("u", u, u_copy, model.u), ("w", w, w_copy, model.w)):
+        if mine is None:
+            continue
+        require(np.shape(attr) == copy_.shape and np.array_equal(np.asarray(attr), copy_),
+                lambda: "a second fit(%r) on the same model changed the supplied %s: at "
+                "construction %r, now %r" % (again, name, copy_.tolist(), np.asarray(attr).tolist()),
+                key="fixed_changed_refit")
+        require(np.array_equal(mine, copy_),
+                lambda: "a second fit(%r) on the same model modified the caller's %s array in "
+                "place: before %r, after %r" % (again, name, copy_.tolist(), mine.tolist()),
+                key="caller_array_refit")
     ctx.nontrivial(case["supply"] in ("u", "w") and case["n_iter"] >= 2)
 
 
@@ -653,6 +722,67 @@ def check_fit_validity(case, ctx):
     ctx.nontrivial(case["supply"] != "both" and case["n_iter"] >= 2 and K >= 2)
 
 
+def closed_forms_on(model, N, D, when, ctx):
+    """poisson_params of every hyperedge of size 2..D, expected_degree (per node / average) and
+    dimension_sequence(expected=True) of `model` against the definitions evaluated on the
+    parameters the model CARRIES NOW (model.u, model.w read back).  Tolerance as for the
+    closed-form clauses: relative 1e-9 plus 1e-13*M, M = (sum_i u_i)^T w (sum_i u_i), which
+    bounds every addend of the shortcuts whatever the spread of the entries is."""
+    from hypergraphx.linalg.linalg import hye_list_to_binary_incidence
+    u = np.asarray(model.u, dtype=float).tolist()
+    w = np.asarray(model.w, dtype=float).tolist()
+    P = pair_table(u, w)
+    M = magnitude(u, w)
+    if 0 < abs(M) < 1e-250:
+        ctx.exclude("parameters near the underflow range: no relative error bound")
+        return
+    hyes = all_hyperedges(N, D)
+    got = model.poisson_params(hye_list_to_binary_incidence(hyes, shape=(N, len(hyes))))
+    require(np.shape(got) == (len(hyes),),
+            lambda: "%s: poisson_params has shape %r for %d hyperedges"
+            % (when, np.shape(got), len(hyes)), key="shape")
+    for e, o in zip(hyes, np.asarray(got).tolist()):
+        x = lam(e, P)
+        require(close(o, x, M),
+                lambda: "%s: poisson_params of hyperedge %r: definition sum_{i<j} u_i^T w u_j "
+                "= %r on the model's current parameters, got %r (u=%r, w=%r)"
+                % (when, e, x, o, u, w), key="poisson_params_fit")
+    if model.max_hye_size is None:
+        return
+    per_node = [[] for _ in range(N)]
+    per_size = {}
+    for e in hyes:
+        x = lam(e, P) / kappa(N, len(e))
+        per_size.setdefault(len(e), []).append(x)
+        for i in e:
+            per_node[i].append(x)
+    exp = [math.fsum(t) for t in per_node]
+    got = model.expected_degree(per_node=True)
+    require(np.shape(got) == (N,) and all(
+        close(o, x, M) for x, o in zip(exp, np.asarray(got).tolist())),
+        lambda: "%s: expected_degree(per_node=True): definition on the model's current "
+        "parameters %r, got %r (sizes 2..%d, u=%r, w=%r)"
+        % (when, exp, np.asarray(got).tolist(), D, u, w), key="expected_degree_fit")
+    avg = math.fsum(exp) / N
+    got = model.expected_degree(per_node=False)
+    require(np.ndim(got) == 0 and close(got, avg, M),
+            lambda: "%s: expected_degree(per_node=False): definition on the model's current "
+            "parameters %r, got %r (sizes 2..%d, u=%r, w=%r)" % (when, avg, got, D, u, w),
+            key="average_degree_fit")
+    got = model.dimension_sequence(include_dyadic=True, expected=True)
+    got = {int(k): float(v) for k, v in got.items()}
+    for d in range(2, D + 1):
+        x = math.fsum(per_size[d])
+        o = got.get(d, 0.0)      # an omitted size stands for "expected count not positive"
+        require(close(o, x, M),
+                lambda: "%s: dimension_sequence(include_dyadic=True, expected=True)[%d]: "
+                "definition on the model's current parameters %r, got %r (u=%r, w=%r)"
+                % (when, d, x, o, u, w), key="dimension_sequence_fit")
+    require(set(got) <= set(range(2, D + 1)),
+            lambda: "%s: dimension_sequence lists sizes %r, maximum size is %d"
+            % (when, sorted(got), D), key="dimension_keys_fit")
+
+
 def check_fit_max_size(case, ctx):
     """Documented in fit(): the maximum hyperedge size is 'detected automatically' from the
     data when the model was built with max_hye_size=None, and a supplied value is kept.  Every
@@ -665,6 +795,12 @@ def check_fit_max_size(case, ctx):
     _classify_fit(case, ctx, N)
     model, u, w = new_model(case, N)
     arg, expected = model_max_size(case, N)
+    if case["supply"] == "both":
+        # a complete model answers before it is fitted (the size-dependent quantities only
+        # when a maximum size was supplied), and gives the same answers afterwards
+        ctx.label("closed forms queried before fit")
+        closed_forms_on(model, N, expected if arg is None else arg,
+                        "HyMMSBM(u, w, max_hye_size=%r) before fit" % (arg,), ctx)
     model.fit(h, n_iter=case["n_iter"])
     got = model.max_hye_size
     require(got == expected,
@@ -677,6 +813,9 @@ def check_fit_max_size(case, ctx):
     require(close(model.C(), exp, 0.0),
             lambda: "C() after fit: expected %r for sizes 2..%d, got %r" % (exp, expected, model.C()),
             key="C_after_fit")
+    # ... and so do the closed forms, evaluated on the parameters the model carries now
+    closed_forms_on(model, N, expected, "after fit(n_iter=%d), supplied: %s"
+                    % (case["n_iter"], case["supply"]), ctx)
     ctx.nontrivial(arg is None and data_max_size(case) >= 3)
 
 
